@@ -8,12 +8,12 @@ SEQ_CONSTS = dict(Keys={1, 2}, Vals={"x"}, MaxOps=5, Base=0,
                   ExpKinds={"zero", "cur", "stale", "fut"},
                   OpKinds={"create", "update", "delete", "compact"},
                   CompactKinds={"zero", "cur-1", "old", "above"},
-                  EventKeys=set(), Expiry=False, CompactAfter=0, DelFaultKinds=set(), GenHist=False)
+                  EventKeys=set(), Expiry=False, CompactAfter=0, DelFaultKinds=set(), StreamBatch=1, StreamRestarts=False, GenHist=False)
 
 MC_INV = {
     "C03": ["ScanIsSnapshot", "PointIsSnapshot", "IndexAgrees"],
     "C08": ["FloorMonotone", "FloorAccepted", "ScanIsSnapshot"],
-    "C13": ["PartitionInvariant", "StreamInvariant"],
+    "C13": ["PartitionInvariant", "StreamInvariant", "StreamFaultInvariant"],
     "C07": ["CompactionSafe", "IndexAgrees"],
 }
 T_MON = {
